@@ -12,6 +12,8 @@ inside the worker so that SciPy's success flag - which get_net_comp() does not h
 import itertools
 import math
 import os
+import shutil
+import tempfile
 import warnings
 
 import numpy as np
@@ -26,11 +28,16 @@ RULE = ('every configuration (network, g pattern, g spread, feed, feed scale, T,
         'a configuration is non-trivial when it reaches a branch the default (H2/O2/H2O, spread 5, '
         'stoichiometric feed x1, 1000 K, 1 atm, listed order, fresh object) does not: SciPy failure, '
         'trace species (x < 1e-4), amount at the lower bound, start outside the bounds, forced-zero '
-        'species, rank-deficient element matrix, permuted order, re-used object, closed form')
+        'species, rank-deficient element matrix, permuted order, re-used object, closed form, network entered '
+        'through a thermdat file written by the harness, another network built / written / solved earlier in '
+        'the process, integer-typed numbers, result edited by the caller between two calls')
 ASSUMPTIONS = ['ideal-gas mixture, standard state 1 bar (NASA polynomials), P given in atm',
                'networks, g patterns, spreads, feeds, scales, T and P are taken from finite alphabets '
                '(stated in bounds); constant-Cp NASA-7 species whose a6 is chosen so that G/RT at the '
                'case temperature equals the prescribed value, plus the bundled propane/steam thermdat',
+               'file family: the thermodynamic numbers of a case are the coefficients as a thermdat record holds '
+               'them (E15.8 fields); the directly built network it is compared with gets the same numbers; an '
+               'Equilibrium object made by from_thermdat holds the content the file had when it was made',
                'global optimality is decided through convexity: the reference returns a point that '
                'passes a KKT certificate, which for this convex problem is the global minimum',
                '"non-trace" = mole fraction > 1e-4 (DESIGN 3.4): affinities and amounts of rarer species '
@@ -50,6 +57,10 @@ FORM = {
     'CH4': {'C': 1, 'H': 4}, 'C2H6': {'C': 2, 'H': 6}, 'C2H4': {'C': 2, 'H': 4}, 'C2H2': {'C': 2, 'H': 2},
     'CO': {'C': 1, 'O': 1}, 'CO2': {'C': 1, 'O': 2},
     'HCN': {'H': 1, 'C': 1, 'N': 1}, 'HNC': {'H': 1, 'N': 1, 'C': 1}, 'NH3': {'N': 1, 'H': 3},
+    # species with an atom count >= 10 (two- and three-column counts of a thermdat record)
+    'C4H10': {'C': 4, 'H': 10}, 'C4H8': {'C': 4, 'H': 8}, 'C3H6': {'C': 3, 'H': 6},
+    'C10H22': {'C': 10, 'H': 22}, 'C5H12': {'C': 5, 'H': 12}, 'C5H10': {'C': 5, 'H': 10},
+    'C4H10O': {'C': 4, 'H': 10, 'O': 1},
 }
 ELEMENT_ORDER = ['H', 'O', 'C', 'N']
 
@@ -96,6 +107,23 @@ NETS_T = {
                {'air': {'CH4': 1.0, 'O2': 2.0, 'N2': 7.52}, 'rich': {'CH4': 1.0, 'O2': 0.6, 'N2': 2.3},
                 'amm': {'NH3': 1.0, 'CO2': 1.0, 'H2': 0.5}}),
 }
+# networks entered through Equilibrium.from_thermdat from files WRITTEN BY THE HARNESS with
+# pmutt.io.thermdat.write_thermdat (the first four hold a species with an atom count >= 10 that
+# is formed or consumed; the last three are networks of the regular family)
+NETS_F = {
+    'BUT3': (['C4H10', 'C4H8', 'H2'],
+             {'unit:C4H10': {'C4H10': 1.0}, 'mixed': {'C4H8': 1.0, 'H2': 2.0}}),
+    'DEC3': (['C10H22', 'C5H12', 'C5H10'],
+             {'unit:C10H22': {'C10H22': 1.0}, 'mixed': {'C5H12': 1.0, 'C5H10': 0.5}}),
+    'BUT5': (['C4H10', 'C2H6', 'C2H4', 'CH4', 'C3H6'],
+             {'unit:C4H10': {'C4H10': 1.0}, 'mixed': {'C2H6': 1.0, 'C2H4': 1.0, 'CH4': 0.5, 'C3H6': 0.5}}),
+    'BUOH5': (['C4H10O', 'C4H8', 'H2O', 'H2', 'C4H10'],
+              {'steam': {'C4H10': 1.0, 'H2O': 1.0}, 'hydro': {'C4H10O': 1.0, 'H2': 1.0}}),
+}
+FILE_NETS = ['BUT3', 'DEC3', 'BUT5', 'BUOH5', 'HO3', 'WGS4', 'AMM3']
+FILE_DECOYS = ['C10H22', 'NO2', 'C4H10']          # records of the file that are not in the network
+FILE_NAME = 'thermdat'
+
 # bundled thermdat network of the repository's own test (real temperature dependence); only at
 # temperatures where its G/RT values span <= 60 (50.2 at 1500 K, 58.0 at 1300 K)
 BUNDLED = 'PROPANE10'
@@ -118,7 +146,13 @@ TOL_AMOUNT = 1e-3                 # relative, non-trace amounts (same quantity a
 TOL_ATOMS = 1e-8                  # relative to the element total of the feed
 LOWER_BOUND_TAG = 1e-19           # an amount this small sits on pMuTT's lower bound (1e-20)
 
-PLANNED_TAGS = ['scipy:success', 'scipy:failure', 'failure:signalled', 'rank:deficient', 'rank:full',
+PLANNED_TAGS = ['via:thermdat-written', 'file:layout-exact', 'file:layout-shuffled+decoys', 'file:atom-count>=10',
+                'file:species-with-atom-count>=10-formed-or-consumed', 'history:file-overwritten-at-same-path',
+                'history:file-at-other-path', 'history:earlier-file-same-species',
+                'history:earlier-file-other-species', 'history:other-file-before-build',
+                'history:other-file-after-build', 'history:other-object-before-build',
+                'history:other-object-after-build', 'history:result-scribbled', 'numbers:int',
+                'scipy:success', 'scipy:failure', 'failure:signalled', 'rank:deficient', 'rank:full',
                 'feed:forced-zero', 'species:trace', 'species:at-lower-bound', 'start:outside-bounds',
                 'closed-form:dimer', 'closed-form:isomer', 'order:permuted', 'history:reused',
                 'elements:1', 'elements:2', 'elements:3', 'elements:4', 'affinity:checked',
@@ -142,6 +176,19 @@ def bounds(tier):
                 blocks=('quick: per network and spread: feed x scale x P at 1000 K; feed x T x P(1) on a re-used '
                         'object and fresh; feed x all orderings at 1000 K, 1 atm; thorough: feed x scale x T x P, '
                         'orderings x feed x P x scale at 1000 K, re-used object over the whole T x P lattice'),
+                file_family=dict(
+                    networks={k: _all_nets()[k][0] for k in FILE_NETS}, decoy_records=FILE_DECOYS,
+                    per_network_spread_feed=('fresh file: P x {1000 K} and T x {1 atm} (thorough: scale x T x P); file '
+                                             'layout exact / reversed between decoy records x listed / reversed '
+                                             'order (thorough: all orderings); histories: earlier file with the '
+                                             'same species and other numbers, or with other species (thorough: '
+                                             'also both, in both orders, and the same twice) x same path '
+                                             'overwritten / other path x before / after the judged file is read; '
+                                             're-used object, result scribbled')),
+                generic_blocks='per (network, spread, feed) of the regular family: integer-typed amounts, T, P at '
+                               '(1000 K, 1 atm) and (500 K, 100 atm) for integral feeds; another object of the same '
+                               'species with other numbers built and solved before / after construction; second '
+                               'call after the caller reversed result.species and overwrote moles / mole_frac',
                 deviation_level='full product inside each block')
 
 
@@ -177,10 +224,24 @@ def _is_bundled(case):
 def _listed(case, tier_nets=None):
     if _is_bundled(case):
         return list(BUNDLED_SPECIES), dict(BUNDLED_FEEDS[case['feed']])
+    sp, feeds = _all_nets()[case['net']]
+    return list(sp), dict(feeds[case['feed']])
+
+
+def _all_nets():
     nets = dict(NETS_Q)
     nets.update(NETS_T)
-    sp, feeds = nets[case['net']]
-    return list(sp), dict(feeds[case['feed']])
+    nets.update(NETS_F)
+    return nets
+
+
+def _is_file(case):
+    return case.get('via') == 'file'
+
+
+def _printed(a):
+    """The number a thermdat record holds for a coefficient (Chemkin E15.8 field)."""
+    return float('%.8E' % a)
 
 
 def _read_thermdat_ref(path):
@@ -239,6 +300,10 @@ def _problem(case):
         u = _pattern(len(names), case['pat'])
         g_target = [float(case['spread']) * ui for ui in u]
         coeffs = {n: _coeffs(n, i, g_target[i], T) for i, n in enumerate(names)}
+        if _is_file(case):
+            # the thermodynamics of the case are the numbers a thermdat record can hold; the
+            # directly built network it is compared with gets the same numbers
+            coeffs = {n: [[_printed(a) for a in v] for v in lh] for n, lh in coeffs.items()}
         # the reference evaluates g from the coefficients with its own formula (not the target)
         g = [R.nasa7_GoRT(coeffs[n][0] if T < 1000.0 else coeffs[n][1], T) for n in names]
     els = [e for e in ELEMENT_ORDER if any(forms[n].get(e, 0) for n in names)]
@@ -253,7 +318,8 @@ _REF_CACHE = {}
 
 
 def _reference(case, prob):
-    key = (case['net'], case.get('pat'), case.get('spread'), case['feed'], case['scale'], case['T'], case['P'])
+    key = (case['net'], case.get('pat'), case.get('spread'), case['feed'], case['scale'], case['T'], case['P'],
+           _is_file(case))
     if key not in _REF_CACHE:
         try:
             _REF_CACHE[key] = R.solve(prob['A'], prob['b'], prob['g'], prob['Pbar'])
@@ -287,52 +353,147 @@ def _order(names, perm):
     return [names[i] for i in perm]
 
 
-def _build_equilibrium(case, prob, order):
+def _nasa(prob, n, phase=None):
+    from pmutt.empirical.nasa import Nasa
+    lo, hi = prob['coeffs'][n]
+    kw = {} if phase is None else dict(phase=phase)
+    return Nasa(name=n, T_low=200.0, T_mid=1000.0, T_high=3500.0, a_low=list(lo), a_high=list(hi),
+                elements=dict(prob['forms'][n]), **kw)
+
+
+def _write_file(case, prob, order, path):
+    """The thermdat file of a file case, written by the real write_thermdat: the records of the
+    network in the listed order ('exact'), or in reverse order between / after two records that do
+    not belong to the network ('shuffled+decoys')."""
+    from pmutt.empirical.nasa import Nasa
+    from pmutt.io.thermdat import write_thermdat
+    names = prob['names']
+    recs = [_nasa(prob, names[i], phase='G') for i in order]
+    if (case.get('layout') or 'exact') == 'shuffled+decoys':
+        T = float(case['T'])
+        decoys = []
+        for k, d in enumerate([d for d in FILE_DECOYS if d not in names][:2]):
+            lo, hi = _coeffs(d, 7 + k, -100.0, T)
+            decoys.append(Nasa(name=d, T_low=200.0, T_mid=1000.0, T_high=3500.0, a_low=[_printed(a) for a in lo],
+                               a_high=[_printed(a) for a in hi], elements=dict(FORM[d]), phase='G'))
+        recs = recs[::-1]
+        recs.insert(len(recs) // 2, decoys[1])
+        recs.insert(0, decoys[0])
+    elif (case.get('layout') or 'exact') != 'exact':
+        raise core.HarnessError('layout %r' % case.get('layout'))
+    write_thermdat(recs, filename=path)
+
+
+def _make_eq(case, prob, order, workdir):
+    """The real Equilibrium object of a case: (object, the network dict it was given, the model
+    list it was given or None)."""
     E = _install_seam()
     names = prob['names']
     network = {}
     for i in order:
-        network[names[i]] = float(prob['feed'][i])
+        v = float(prob['feed'][i])
+        if case.get('num') == 'int':
+            if v != int(v):
+                raise core.HarnessError('integer-typed case with a non-integral feed %r' % v)
+            v = int(v)
+        network[names[i]] = v
     if _is_bundled(case):
-        return E.Equilibrium.from_thermdat(os.path.join(core.REPO_ROOT, BUNDLED_FILE), network)
-    from pmutt.empirical.nasa import Nasa
-    model = []
-    for i in order:
-        n = names[i]
-        lo, hi = prob['coeffs'][n]
-        model.append(Nasa(name=n, T_low=200.0, T_mid=1000.0, T_high=3500.0, a_low=list(lo), a_high=list(hi),
-                          elements=dict(prob['forms'][n])))
-    return E.Equilibrium(model=model, network=network)
+        return E.Equilibrium.from_thermdat(os.path.join(core.REPO_ROOT, BUNDLED_FILE), network), network, None
+    if _is_file(case):
+        path = os.path.join(workdir, FILE_NAME)
+        _write_file(case, prob, order, path)
+        return E.Equilibrium.from_thermdat(path, network), network, None
+    model = [_nasa(prob, names[i]) for i in order]
+    return E.Equilibrium(model=model, network=network), network, model
+
+
+def _run_before(case, workdir):
+    """The earlier part of a history: other networks built (file cases: written to the SAME path,
+    or to another path, and entered through from_thermdat) and solved in this process."""
+    for b in case.get('before') or []:
+        bc = dict(b, prior=None)
+        pb = _problem(bc)
+        bc['order'] = list(range(len(pb['names'])))
+        sub = workdir
+        if workdir is not None and (case.get('path') or 'same') == 'other':
+            sub = os.path.join(workdir, 'other')
+            os.makedirs(sub, exist_ok=True)
+        eqb = _make_eq(bc, pb, bc['order'], sub)[0]
+        try:
+            eqb.get_net_comp(T=float(bc['T']), P=float(bc['P']))
+        except Exception:
+            pass                             # history, not the case judged
+
+
+def _scribble(res):
+    """What a caller may do with a result it was given: edit its containers in place."""
+    for arr, v in ((res.moles, -1.0), (res.mole_frac, 7.0)):
+        try:
+            arr[...] = v
+        except (TypeError, ValueError):
+            pass
+    if isinstance(res.species, list):
+        res.species.reverse()
+
+
+def _uses_files(case):
+    return _is_file(case) or any(b.get('via') == 'file' for b in case.get('before') or [])
 
 
 def _execute(case, prob, order, prior):
     """Run the real code once.  Returns dict(moles (canonical order), mole_frac, species ok, flag,
     warnings, exc)."""
     names = prob['names']
-    out = dict(exc=None, moles=None, frac=None, flag=None, signals=[], unrelated=0, species_ok=None)
-    with warnings.catch_warnings(record=True) as rec:
-        warnings.resetwarnings()             # neutralises pmutt.equilibrium's import-time filter too
-        warnings.simplefilter('always')
-        eq = _build_equilibrium(case, prob, order)
-        if prior is not None:
+    out = dict(exc=None, moles=None, frac=None, flag=None, signals=[], unrelated=0, species_ok=None,
+               caller_data_ok=None)
+    T, P = float(case['T']), float(case['P'])
+    if case.get('num') == 'int':
+        if T != int(T) or P != int(P):
+            raise core.HarnessError('integer-typed case with non-integral T or P')
+        T, P = int(T), int(P)
+    workdir = tempfile.mkdtemp(prefix='c16_') if _uses_files(case) else None
+    try:
+        with warnings.catch_warnings(record=True) as rec:
+            warnings.resetwarnings()             # neutralises pmutt.equilibrium's import-time filter too
+            warnings.simplefilter('always')
+            when = case.get('when') or 'before-build'
+            if when == 'before-build':
+                _run_before(case, workdir)
+            eq, network, model = _make_eq(case, prob, order, workdir)
+            given = (list(network.items()), None if model is None else [id(m) for m in model],
+                     None if model is None else [dict(m.elements) for m in model])
+            if when == 'after-build':
+                _run_before(case, workdir)
+            elif when != 'before-build':
+                raise core.HarnessError('when %r' % when)
+            if prior is not None:
+                try:
+                    r0 = eq.get_net_comp(T=float(prior[0]), P=float(prior[1]))
+                except Exception:
+                    r0 = None                    # the prior call is history, not the case judged
+                if case.get('scribble') and r0 is not None:
+                    _scribble(r0)
+            del rec[:]
+            del _CALLS[:]
             try:
-                eq.get_net_comp(T=float(prior[0]), P=float(prior[1]))
-            except Exception:
-                pass                         # the prior call is history, not the case judged
-        del rec[:]
-        del _CALLS[:]
-        try:
-            res = eq.get_net_comp(T=float(case['T']), P=float(case['P']))
-        except Exception as e:               # judged by the caller (signal of a failure, or a crash)
-            out['exc'] = e
-            res = None
-        calls = list(_CALLS)
-        for w in rec:
-            msg = str(w.message)
-            if any(msg.startswith(u) or u in msg for u in UNRELATED_WARNINGS):
-                out['unrelated'] += 1
-            else:
-                out['signals'].append('%s: %s' % (w.category.__name__, msg[:100]))
+                res = eq.get_net_comp(T=T, P=P)
+            except Exception as e:               # judged by the caller (signal of a failure, or a crash)
+                out['exc'] = e
+                res = None
+            calls = list(_CALLS)
+            for w in rec:
+                msg = str(w.message)
+                if any(msg.startswith(u) or u in msg for u in UNRELATED_WARNINGS):
+                    out['unrelated'] += 1
+                else:
+                    out['signals'].append('%s: %s' % (w.category.__name__, msg[:100]))
+            out['caller_data_ok'] = (
+                list(network.items()) == given[0]
+                and (model is None or ([id(m) for m in model] == given[1]
+                                       and [dict(m.elements) for m in model] == given[2])))
+    finally:
+        if workdir is not None:
+            shutil.rmtree(workdir, ignore_errors=True)
     out['flag'] = calls[-1] if calls else None
     if res is not None:
         listed = [names[i] for i in order]
@@ -367,9 +528,25 @@ def _sig(case, prob, run):
         s = 'success'
     else:
         s = 'failure-status-%d' % flag['status']
-    return dict(scipy=s, net=case['net'], feed_scale='%g' % float(case['scale']),
-                order='listed' if list(case['order']) == list(range(len(prob['names']))) else 'permuted',
-                history='fresh' if case.get('prior') is None else 'reused')
+    sig = dict(scipy=s, net=case['net'], feed_scale='%g' % float(case['scale']),
+               order='listed' if list(case['order']) == list(range(len(prob['names']))) else 'permuted',
+               history=_history(case))
+    if _is_file(case):
+        sig['via'] = 'thermdat-written'
+    if case.get('num') == 'int':
+        sig['numbers'] = 'int'
+    return sig
+
+
+def _history(case):
+    h = 'fresh' if case.get('prior') is None else ('reused+scribbled' if case.get('scribble') else 'reused')
+    if case.get('before'):
+        kinds = sorted({'file' if b.get('via') == 'file' else 'object' for b in case['before']})
+        where = ''
+        if 'file' in kinds:
+            where = ':same-path' if (case.get('path') or 'same') == 'same' else ':other-path'
+        h += '+other-%s-%s%s' % ('+'.join(kinds), (case.get('when') or 'before-build'), where)
+    return h
 
 
 def _rank(prob):
@@ -409,6 +586,26 @@ def _judge(case, ctx, prob, ref, run, sig):
     if _is_bundled(case):
         ctx.tag('network:bundled-thermdat')
     nontriv = []
+    big_counts = [i for i, n in enumerate(names) if max(prob['forms'][n].values()) >= 10]
+    if _is_file(case):
+        ctx.tag('via:thermdat-written')
+        ctx.tag('file:layout-' + (case.get('layout') or 'exact'))
+        nontriv.append('file')
+        if big_counts:
+            ctx.tag('file:atom-count>=10')
+    if case.get('num') == 'int':
+        ctx.tag('numbers:int')
+        nontriv.append('int')
+    for step in case.get('before') or []:
+        isf = step.get('via') == 'file'
+        ctx.tag('history:other-%s-%s' % ('file' if isf else 'object', (case.get('when') or 'before-build')))
+        if isf and _is_file(case):
+            ctx.tag('history:file-' + ('overwritten-at-same-path' if (case.get('path') or 'same') == 'same'
+                                       else 'at-other-path'))
+            ctx.tag('history:earlier-file-' + ('same-species' if step['net'] == case['net'] else 'other-species'))
+        nontriv.append('before')
+    if case.get('scribble'):
+        ctx.tag('history:result-scribbled')
     if flag is None:
         ctx.tag('scipy:unobserved')
     elif flag['success']:
@@ -438,6 +635,8 @@ def _judge(case, ctx, prob, ref, run, sig):
     moles, frac = run['moles'], run['frac']
     ctx.evals(6)
     ok = ctx.true('species are returned in the listed order', run['species_ok'], sig, case)
+    ok &= ctx.true('the network dictionary and the model list of the caller are left as they were',
+                   bool(run['caller_data_ok']), sig, case)
     ok &= ctx.true('amounts are finite and non-negative',
                    bool(np.all(np.isfinite(moles)) and np.all(moles >= 0.0)), sig, case,
                    observed=None if np.all(np.isfinite(moles)) and np.all(moles >= 0) else moles,
@@ -467,6 +666,9 @@ def _judge(case, ctx, prob, ref, run, sig):
     if np.any(moles <= LOWER_BOUND_TAG):
         ctx.tag('species:at-lower-bound')
         nontriv.append('bound')
+    if _is_file(case) and any(abs(ref['n'][i] - prob['feed'][i]) > 1e-3 * float(np.sum(prob['feed']))
+                              for i in big_counts):
+        ctx.tag('file:species-with-atom-count>=10-formed-or-consumed')
     if len(S) >= 2:
         rx = R.nullspace_reactions(A[S])
         if rx.shape[0]:
@@ -497,7 +699,7 @@ def _judge(case, ctx, prob, ref, run, sig):
         nontriv.append('start')
     if sig['order'] == 'permuted':
         nontriv.append('perm')
-    if sig['history'] == 'reused':
+    if sig['history'].startswith('reused'):
         nontriv.append('reused')
     if nontriv:
         ctx.nontrivial(_key(case))
@@ -505,8 +707,15 @@ def _judge(case, ctx, prob, ref, run, sig):
 
 
 def _key(case):
-    return (case['net'], case.get('pat'), case.get('spread'), case['feed'], case['scale'], case['T'], case['P'],
-            tuple(case['order']), tuple(case['prior']) if case.get('prior') else None)
+    k = (case['net'], case.get('pat'), case.get('spread'), case['feed'], case['scale'], case['T'], case['P'],
+         tuple(case['order']), tuple(case['prior']) if case.get('prior') else None)
+    extra = (case.get('via'), case.get('layout'), case.get('num'), bool(case.get('scribble')),
+             case.get('when'), case.get('path'),
+             tuple((b.get('via'), b['net'], b.get('pat'), b.get('spread'), b['feed'], b['scale'], b['T'], b['P'],
+                    b.get('layout')) for b in case.get('before') or []))
+    if any(extra[:-1]) or extra[-1]:
+        k += extra
+    return k
 
 
 _BASE_CACHE = {}
@@ -537,12 +746,16 @@ def check_case(case, ctx):
         return
     sig = _sig(case, prob, run)
     moles = _judge(case, ctx, prob, ref, run, sig)
-    if order != ident or prior is not None:
-        # compare with the listed order on a fresh object (same feed, T, P)
-        bkey = _key(dict(case, order=ident, prior=None))
+    plain = not (_is_file(case) or case.get('before') or case.get('num'))
+    if order != ident or prior is not None or not plain:
+        # compare with the listed order on a fresh object built directly from the Nasa objects
+        # (same thermodynamic numbers, feed, T, P; float-typed; nothing else done before)
+        bcase = dict(case, order=ident, prior=None, via=None, layout=None, num=None, scribble=False,
+                     when=None, path=None, before=None)
+        bkey = _key(bcase) + (('printed-coefficients',) if _is_file(case) else ())
         if bkey not in _BASE_CACHE:
             try:
-                brun = _execute(case, prob, ident, None)
+                brun = _execute(bcase, prob, ident, None)
             except Exception as e:
                 if core.classify_exception(e) is None:
                     raise
@@ -559,10 +772,27 @@ def check_case(case, ctx):
             ctx.tag('history:reused')
         if moles is not None and base is not None:
             big = [i for i in range(len(base)) if base[i] / np.sum(base) > TRACE]
-            ctx.evals()
-            what = ('composition does not depend on the order of the species' if order != ident else
-                    'composition does not depend on earlier calls on the same object')
-            ctx.close(what, moles[big], base[big], sig, case, rtol=2 * TOL_AMOUNT, atol=0.0)
+            if order != ident:
+                ctx.evals()
+                ctx.close('composition does not depend on the order of the species', moles[big], base[big], sig,
+                          case, rtol=2 * TOL_AMOUNT, atol=0.0)
+            if prior is not None:
+                ctx.evals()
+                ctx.close('composition does not depend on earlier calls on the same object', moles[big], base[big],
+                          sig, case, rtol=2 * TOL_AMOUNT, atol=0.0)
+            if _is_file(case):
+                ctx.evals()
+                ctx.close('network read from a written thermdat file gives the composition of the same network '
+                          'built from the Nasa objects', moles[big], base[big], sig, case, rtol=2 * TOL_AMOUNT,
+                          atol=0.0)
+            if case.get('before'):
+                ctx.evals()
+                ctx.close('composition does not depend on other networks built or solved earlier in the process',
+                          moles[big], base[big], sig, case, rtol=2 * TOL_AMOUNT, atol=0.0)
+            if case.get('num'):
+                ctx.evals()
+                ctx.close('integer-typed amounts, T and P give the composition of the float-typed ones',
+                          moles[big], base[big], sig, case, rtol=2 * TOL_AMOUNT, atol=0.0)
         else:
             ctx.tag('order-or-history:not-comparable(failure signalled)')
 
@@ -604,12 +834,88 @@ def shards(tier):
                 out.append(dict(net=net, pat=pat, spread=s, tier=tier))
     for feed in BUNDLED_FEEDS:
         out.append(dict(net=BUNDLED, feed=feed, tier=tier))
+    for net in FILE_NETS:
+        for pat in pats:
+            for s in SPREADS:
+                if pat == 'b' and s == 0.0:
+                    continue
+                out.append(dict(fam='file', net=net, pat=pat, spread=s, tier=tier))
     return out
+
+
+def _other_spread(s):
+    return SPREADS[(SPREADS.index(s) + 1) % len(SPREADS)]
+
+
+def _file_cases(shard):
+    """Networks entered through from_thermdat from files written by the harness."""
+    tier, net, pat, spread = shard['tier'], shard['net'], shard['pat'], shard['spread']
+    nets = _all_nets()
+    names, feeds = nets[net]
+    ns = len(names)
+    ident = list(range(ns))
+    other_net = FILE_NETS[(FILE_NETS.index(net) + 1) % len(FILE_NETS)]
+    other_feed = sorted(nets[other_net][1])[0]
+    for feed in feeds:
+        fb = dict(net=net, pat=pat, spread=spread, feed=feed, scale=1.0, order=ident, prior=None, via='file',
+                  layout='exact')
+        # F1: a fresh file per case, over P and T
+        if tier == 'quick':
+            for P in PRESS:
+                yield dict(fb, T=DEF_T, P=P)
+            for T in TEMPS:
+                if T != DEF_T:
+                    yield dict(fb, T=T, P=DEF_P)
+        else:
+            for sc in SCALES:
+                for T in TEMPS:
+                    for P in PRESS:
+                        yield dict(fb, scale=sc, T=T, P=P)
+        # F2: records of the file in another order than the network, between records of other species;
+        #     network listed in another order than the file
+        yield dict(fb, T=DEF_T, P=DEF_P, layout='shuffled+decoys')
+        for o in (_orderings(ns)[1:] if tier != 'quick' else [ident[::-1]]):
+            yield dict(fb, T=DEF_T, P=DEF_P, order=o)
+            yield dict(fb, T=DEF_T, P=DEF_P, order=o, layout='shuffled+decoys')
+        # F3: histories - an earlier file (same species with other numbers: A; other species: B) written to
+        #     the same path (overwritten) or to another path, read and solved before / after the file judged is read
+        A = dict(via='file', net=net, pat=pat, spread=_other_spread(spread), feed=feed, scale=1.0, T=DEF_T, P=DEF_P,
+                 layout='exact')
+        B = dict(via='file', net=other_net, pat=pat, spread=spread, feed=other_feed, scale=1.0, T=DEF_T, P=DEF_P,
+                 layout='exact')
+        befores = [[A], [B]] if tier == 'quick' else [[A], [B], [A, B], [B, A], [A, A]]
+        for before in befores:
+            for path in ('same', 'other'):
+                for when in ('before-build', 'after-build'):
+                    yield dict(fb, T=DEF_T, P=DEF_P, before=before, path=path, when=when)
+        # F4: the object made by from_thermdat used twice
+        yield dict(fb, T=500.0, P=DEF_P, prior=[DEF_T, 100.0])
+        yield dict(fb, T=DEF_T, P=0.01, prior=[300.0, 100.0], scribble=True)
+
+
+def _generic_cases(fb, net, pat, spread, feed, feeds):
+    """Blocks added to every (network, spread, feed) of the regular family in both tiers."""
+    ident = fb['order']
+    # integer-typed amounts, T and P
+    if all(float(v).is_integer() for v in feeds[feed].values()):
+        yield dict(fb, scale=1.0, T=DEF_T, P=DEF_P, num='int')
+        yield dict(fb, scale=1.0, T=500.0, P=100.0, num='int')
+    # another object (same species, other thermodynamic numbers) built and solved between the
+    # construction of the object judged and its call / before its construction
+    other = dict(net=net, pat=pat, spread=_other_spread(spread), feed=feed, scale=1.0, T=DEF_T, P=DEF_P)
+    yield dict(fb, scale=1.0, T=DEF_T, P=DEF_P, before=[other], when='after-build')
+    yield dict(fb, scale=1.0, T=DEF_T, P=DEF_P, before=[other], when='before-build')
+    # the caller edits the result of the first call in place, then calls again
+    yield dict(fb, scale=1.0, T=500.0, P=DEF_P, prior=[DEF_T, 100.0], scribble=True)
 
 
 def _cases(shard):
     tier = shard['tier']
     net = shard['net']
+    if shard.get('fam') == 'file':
+        for c in _file_cases(shard):
+            yield c
+        return
     if net == '(hard points)':
         for c in HARD_POINTS:
             yield dict(c)
@@ -636,6 +942,8 @@ def _cases(shard):
     base = dict(net=net, pat=shard['pat'], spread=shard['spread'])
     for feed in feeds:
         fb = dict(base, feed=feed)
+        for c in _generic_cases(dict(fb, order=ident, prior=None), net, shard['pat'], shard['spread'], feed, feeds):
+            yield c
         if tier == 'quick':
             # block 1: scale x P at the default temperature
             for sc in SCALES:
@@ -676,8 +984,10 @@ def run_shard(shard, ctx):
 
 
 LEVEL_TEXT = ('Bounded exhaustive enumeration of configurations of the real Equilibrium.get_net_comp (14 networks '
-              'of 2-6 species in the quick tier, 17 of 2-12 species plus the bundled 10-species thermdat in the '
-              'thorough tier; 7 Gibbs-energy spreads; every listed feed, feed scale, temperature, pressure, species '
+              'of 2-6 species in the quick tier, 17 of 2-12 species in the thorough tier, the bundled 10-species '
+              'thermdat, and 7 networks - 4 of them with atom counts of 10-22 - written to thermdat files by the '
+              'harness and entered through from_thermdat, alone and after other files were written to the same or '
+              'another path; 7 Gibbs-energy spreads; every listed feed, feed scale, temperature, pressure, species '
               'ordering and re-use history of the stated blocks), each judged against an independently certified '
               'global minimiser (element-potential Newton method with a KKT certificate, closed forms for two-species '
               'networks) and against SciPy\'s own success flag observed through a harness-side wrapper.')
